@@ -88,6 +88,9 @@ def guarded_execute(prop, layer, case):
     """layer.execute(case) under a real-time watchdog (main thread of the worker process only)."""
     import threading
 
+    import copy
+
+    case = copy.deepcopy(case)  # an execution must never change the case that is reported / saved as the replay file
     if threading.current_thread() is not threading.main_thread():
         return layer.execute(case)
     old = signal.signal(signal.SIGALRM, _alarm)
